@@ -408,11 +408,11 @@ pub fn run_child(ctx: &Ctx) -> Report {
     // ---- (e) secrets x capacities (shared with C06)
     let b = base;
     let caps = [0usize, 1, 3, 4, 5, 44, 45, 64, 128];
-    let n_e = (caps.len() * 101 * 4) as u64;
+    let n_e = (caps.len() * 101) as u64 * c06::NFILLS;
     let part = par_sweep(n_e, |i, st| {
-        let fill = (i % 4) as usize;
-        let len = ((i / 4) % 101) as usize;
-        let m = caps[(i / 404) as usize];
+        let fill = (i % c06::NFILLS) as usize;
+        let len = ((i / c06::NFILLS) % 101) as usize;
+        let m = caps[(i / (101 * c06::NFILLS)) as usize];
         let s = c06::secret(len, fill);
         c06::check_capacity_pub(b + i, m, &s, st);
     });
